@@ -97,6 +97,11 @@ struct Drv {
     virtual void dump_LU(LUDump &d) = 0;
     virtual cld round_to_prec(cld v) = 0;                      // value as representable in working precision
     virtual std::vector<long> get_etree() = 0;
+    // ?langs(norm, A as the column-compressed view the route factorized) and ?gscon(norm, L, U, anorm) on the current factors
+    virtual long call_gscon(char norm, ld &anorm, ld &rcond) = 0;
+    // ?CompRow_to_CompCol on the matrix read as row-compressed (or on an empty matrix of the same order), results released with SUPERLU_FREE;
+    // returns false if the converted arrays are not the transpose's column-compressed form
+    virtual bool call_comprow_to_compcol(bool empty) = 0;
     virtual long call_trsv(const char *uplo, const char *trans, const char *diag, std::vector<cld> &x) = 0; // sp_?trsv on the current factors                 // options.etree after a factorization (size n) or empty
 };
 
